@@ -523,8 +523,87 @@ func c19Store(n int, pb int) vx.Scenario {
 		}}
 }
 
+// c19StoreFault: a blob of n bytes is written while a class of service calls fails (every write of a
+// blob part, every second one, the last one, the entity itself): the write must return (with an error or
+// not), never hang, and whatever reads back afterwards without an error must be the blob.
+func c19StoreFault(n int, which string, pb int) vx.Scenario {
+	return vx.Scenario{Name: fmt.Sprintf("c19/store/fault/%d/%s", n, which), PB: pb, MaxSteps: 100000, MaxTime: time.Hour,
+		Setup: func(s *vs.Sched) func(*vs.Result) vx.Exec {
+			data := payload(7, n)
+			var got []byte
+			var werr, rerr, wreq error
+			done := false
+			s.Thread("driver", func() {
+				vae.Reset()
+				st := cache.NewCachingStore(store.NewPersistentStore())
+				ctx := context.Background()
+				parts := 0
+				vae.W().Fault = func(op vae.Op) error {
+					if op.Service != "ds" || !strings.HasPrefix(op.Op, "Put") {
+						return nil
+					}
+					isPart := strings.Contains(strings.ToLower(op.Kind), "part")
+					if isPart {
+						parts++
+					}
+					switch which {
+					case "all-parts":
+						if isPart {
+							return errors.New("injected: part write failed")
+						}
+					case "odd-parts":
+						if isPart && parts%2 == 1 {
+							return errors.New("injected: part write failed")
+						}
+					case "even-parts":
+						if isPart && parts%2 == 0 {
+							return errors.New("injected: part write failed")
+						}
+					case "entity":
+						if !isPart {
+							return errors.New("injected: entity write failed")
+						}
+					case "everything":
+						return errors.New("injected: datastore down")
+					}
+					return nil
+				}
+				werr = st.WriteResponse(ctx, &types.Response{BackendID: "b1", RequestID: "r1", Contents: data})
+				wreq = st.WriteRequest(ctx, types.NewRequest("b1", "r2", u1, data))
+				vae.W().Fault = nil
+				var r *types.Response
+				r, rerr = st.ReadResponse(ctx, "b1", "r1")
+				if r != nil && rerr == nil {
+					got = r.Contents
+				}
+				done = true
+			})
+			return func(r *vs.Result) vx.Exec {
+				var x vx.Exec
+				base(r, &x)
+				x.Obs = fmt.Sprintf("%d bytes, %s failing: write %v / %v, read err %v, %d bytes back", n, which, werr != nil, wreq != nil, rerr != nil, len(got))
+				if !done && len(r.Panics) == 0 {
+					x.Violations = append(x.Violations, fmt.Sprintf("HANG: writing a %d-byte blob with %s failing never returned: %s", n, which, blockedList(r)))
+					return x
+				}
+				if werr == nil && which != "none" && (which == "all-parts" || which == "everything" || which == "entity") && n > 1000000 {
+					x.Violations = append(x.Violations, fmt.Sprintf("SILENT: writing a %d-byte response with %s failing reported success", n, which))
+				}
+				if werr == nil && rerr == nil && got != nil && !bytes.Equal(got, data) {
+					x.Violations = append(x.Violations, fmt.Sprintf("BLOB-ALTERED: a response of %d bytes whose write reported success (%s failing) read back with %d bytes, first difference at %d", n, which, len(got), firstDiff(got, data)))
+				}
+				return x
+			}
+		}}
+}
+
 func c19Scenarios(th bool) []vx.Scenario {
 	var out []vx.Scenario
+	for _, n := range []int{1500000, 2000001, 3200000} {
+		for _, which := range []string{"all-parts", "odd-parts", "even-parts", "entity", "everything"} {
+			out = append(out, c19StoreFault(n, which, 1))
+		}
+	}
 	for _, n := range []int{999999, 1000000, 1999999, 2000001, 2500000, 3200000} {
 		pb := 2
 		if th {
